@@ -100,18 +100,38 @@ func (e *Exec) execVec(c *Cmd, sl *slots) (string, bool, bool) {
 		if err != nil {
 			return "scripterror:ex", true, true
 		}
-		h, err := vs.InterpretVectorIndex(c.Pos[2], c.str("filt", "0") == "1", ex)
+		filt := c.str("filt", "0") == "1"
+		if c.str("filt", "0") == "g" {
+			// inside a `par` block: every other goroutine asks for a filtering handle
+			filt = e.vecGoroutineParity(sl)
+		}
+		h, err := vs.InterpretVectorIndex(c.Pos[2], filt, ex)
 		if err != nil {
 			return errKind(err), true, true
+		}
+		if sl != nil && sl.par {
+			if old, ok := sl.vh[c.Pos[0]]; ok {
+				old.(segment.VectorIndex).Close() // a later round re-opens under the same name
+			}
+			sl.vh[c.Pos[0]] = h
+			return "ok", true, true
 		}
 		e.mu.Lock()
 		e.vec.handles[c.Pos[0]] = h
 		e.mu.Unlock()
 		return "ok", true, true
 	case "vsearch":
-		e.mu.Lock()
-		h := e.vec.handles[c.Pos[0]]
-		e.mu.Unlock()
+		var h segment.VectorIndex
+		if sl != nil && sl.par {
+			if x, ok := sl.vh[c.Pos[0]]; ok {
+				h = x.(segment.VectorIndex)
+			}
+		}
+		if h == nil {
+			e.mu.Lock()
+			h = e.vec.handles[c.Pos[0]]
+			e.mu.Unlock()
+		}
 		if h == nil {
 			return "scripterror:nohandle", true, true
 		}
@@ -124,7 +144,9 @@ func (e *Exec) execVec(c *Cmd, sl *slots) (string, bool, bool) {
 		var pl segment.VecPostingsList
 		var err error
 		if es, ok := c.KV["elig"]; ok {
-			ids, _ := parseU64List(es, ",")
+			// one slice per distinct eligible set, handed to every search that names it (a caller
+			// keeps its filter result and reuses it; the callee must not write to it)
+			ids := e.vecEligible(es)
 			pl, err = h.SearchWithFilter(q, k, ids, nil)
 		} else {
 			pl, err = h.Search(q, k, nil)
@@ -150,6 +172,13 @@ func (e *Exec) execVec(c *Cmd, sl *slots) (string, bool, bool) {
 		}
 		return fmt.Sprintf("cnt=%d hits=%s", pl.Count(), hs), true, true
 	case "vclose":
+		if sl != nil && sl.par {
+			if x, ok := sl.vh[c.Pos[0]]; ok {
+				delete(sl.vh, c.Pos[0])
+				x.(segment.VectorIndex).Close()
+				return "ok", true, true
+			}
+		}
 		e.mu.Lock()
 		h := e.vec.handles[c.Pos[0]]
 		delete(e.vec.handles, c.Pos[0])
@@ -233,6 +262,9 @@ func (e *Exec) execVec(c *Cmd, sl *slots) (string, bool, bool) {
 					cmd = fmt.Sprintf("buildfault %s %s engfail=%s:%d", c.Pos[0]+"x", c.Pos[1], op, n)
 				} else {
 					cmd = fmt.Sprintf("%s engfail=%s:%d", base, op, n)
+					if n%2 == 0 {
+						cmd += " keep=1" // the earlier (fault-free) output is still at the path
+					}
 					settle()
 					faiss.VerifResetCounters()
 				}
@@ -271,3 +303,35 @@ func (f *fieldStats) Store(statName, fieldName string, value uint64) {
 }
 func (f *fieldStats) Aggregate(stats segment.FieldStats)  {}
 func (f *fieldStats) Fetch() map[string]map[string]uint64 { return f.m }
+
+var vecParityCounter uint64
+var vecParityMu sync.Mutex
+var vecParity = map[*slots]bool{}
+
+// vecGoroutineParity: a stable true/false per goroutine of a par block, alternating in the order
+// of first use.
+func (e *Exec) vecGoroutineParity(sl *slots) bool {
+	vecParityMu.Lock()
+	defer vecParityMu.Unlock()
+	if v, ok := vecParity[sl]; ok {
+		return v
+	}
+	vecParityCounter++
+	v := vecParityCounter%2 == 0
+	vecParity[sl] = v
+	return v
+}
+
+var vecEligMu sync.Mutex
+var vecEligCache = map[string][]uint64{}
+
+func (e *Exec) vecEligible(spec string) []uint64 {
+	vecEligMu.Lock()
+	defer vecEligMu.Unlock()
+	if ids, ok := vecEligCache[spec]; ok {
+		return ids
+	}
+	ids, _ := parseU64List(spec, ",")
+	vecEligCache[spec] = ids
+	return ids
+}
